@@ -139,10 +139,8 @@ def gen_edl(rng, kind):
         return {"type": "no_edl"}
     if r < 0.50:
         e = {"type": "ccm", "cap": round(loguni(rng, 0.2, 5.0), 3)}
-        if rng.random() < 0.25:      # constant capacitance with an explicit diffuse layer
-            e["dl"] = rng.choice(["donnan", "diffuse_layer"])
-            if rng.random() < 0.5:
-                e["thickness"] = loguni(rng, 2e-9, 5e-8)
+        # (constant capacitance with -donnan / -diffuse_layer is rejected by the reader: "Cannot use -diffuse_layer or
+        #  -donnan calculation with Constant capacity model" — an input error, outside the property)
         return e
     e = {"type": "ddl"}
     r = rng.random()
